@@ -33,7 +33,7 @@ func init() {
 		ID:    "C06",
 		Level: "exploration",
 		Rule: "signed updates produced by SignEFIVariable under a harness-controlled clock: (names: 25 predefined, A, each of the 95 printable ASCII characters, a 64-character name) x payloads {empty bytes, empty database, 1 hash, 3 hashes, certificate list, raw 1/7/8/4096/70000 bytes} x attribute masks {7, 0x27, 0x67}; " +
-			"all 256 attribute masks x 2 payloads; GUIDs {asymmetric A, asymmetric B, leading-zero fields}; keys RSA-2048 (RSA-4096 on a subset), self-signed and CA-issued (issuer != subject) certificates; clock instants {ordinary, 31 Dec 23:59:59, 29 Feb, DST change, year 2040} x zones {UTC, +09:00, -08:00, +05:45, +14:00, -12:00}. " +
+			"all 256 attribute masks x 2 payloads; GUIDs {asymmetric A, asymmetric B, leading-zero fields}; keys RSA-2048 (RSA-4096 on a subset), self-signed and CA-issued (issuer != subject) certificates; clock instants {ordinary, 31 Dec 23:59:59, 29 Feb, DST change, year 2040, first and last second of the UTCTime window, 2100, 9999, 1970} x zones {UTC, +09:00, -08:00, +05:45, +14:00, -12:00}. " +
 			"oracle: bytes 0-15 are the EFI_TIME of the instant in UTC with pad/nanosecond/timezone/daylight zero; dwLength = 24 + signature length; revision 0x0200; type 0x0EF1; PKCS7 type GUID in wire order; CertData is a bare SignedData; the rest equals the payload; " +
 			"an independent verifier accepts the detached SHA-256 signature over name(UTF-16LE, unterminated)||GUID||attributes||timestamp||payload and rejects each of: any component changed in one byte, terminator added, components reordered, component dropped; openssl smime -verify agrees on a subset. " +
 			"non-trivial = all clauses evaluated; distinct = distinct (name, GUID, mask, payload, key, instant, zone)",
@@ -344,7 +344,8 @@ func c06Run(c *hx.Ctx, tier, unit string) {
 		}
 	case unit == "clock":
 		instants := []time.Time{t0, time.Date(2023, 12, 31, 23, 59, 59, 999, time.UTC), time.Date(2024, 2, 29, 12, 0, 0, 0, time.UTC),
-			time.Date(2024, 3, 31, 1, 0, 0, 0, time.UTC), time.Date(2040, 1, 19, 3, 14, 8, 0, time.UTC), time.Date(2024, 1, 1, 0, 0, 0, 0, time.UTC)}
+			time.Date(2024, 3, 31, 1, 0, 0, 0, time.UTC), time.Date(2040, 1, 19, 3, 14, 8, 0, time.UTC), time.Date(2024, 1, 1, 0, 0, 0, 0, time.UTC),
+			time.Date(2049, 12, 31, 23, 59, 59, 0, time.UTC), time.Date(2050, 1, 1, 0, 0, 0, 0, time.UTC), time.Date(2100, 2, 28, 12, 0, 0, 0, time.UTC), time.Date(9999, 12, 31, 23, 59, 59, 0, time.UTC), time.Date(1970, 1, 1, 0, 0, 0, 0, time.UTC)}
 		zones := []*time.Location{time.UTC, time.FixedZone("+09:00", 9*3600), time.FixedZone("-08:00", -8*3600), time.FixedZone("+05:45", 5*3600+45*60),
 			time.FixedZone("+14:00", 14*3600), time.FixedZone("-12:00", -12*3600)}
 		// zones with daylight saving time, at instants inside the repeated hour (clocks going back), inside
